@@ -345,6 +345,7 @@ Record scase := { sc_trace : list label; sc_settled : bool }.
    (no wrappers: Run uses the proxy's own listeners). ---------- *)
 Record rcase := {
   r_timeout : Z;          (* configured shutdown timeout, ms *)
+  r_cancel_at : Z;        (* the drain was interrupted by a shutdown signal this long after the cancel (ms); negative = never *)
   r_elapsed : Z;          (* from the cancel to the return of Run, ms *)
   r_err_ctx : bool;       (* Run returned the cancelled context's error *)
   r_refused : bool;       (* a connection attempt after the cancel was refused / reset without service *)
@@ -368,6 +369,8 @@ Record rcase := {
    cancel was served; 8 Run returned early although an idle connection was never closed by its client
    nor woken by a request (must wait for the timeout); 9 idle upstream connections were not closed *)
 Definition rcase_codes (r : rcase) : list N :=
+  (* the drain ends at the timeout or when a further signal cancels the shutdown context, whichever is first *)
+  let r_timeout := fun r => if (0 <=? r_cancel_at r) && (r_cancel_at r <? r_timeout r) then r_cancel_at r else r_timeout r in
   let drains := r_inflight r && (0 <=? r_origin_answers r) && (r_origin_answers r + r_tol r <? r_timeout r) in
   let blocked := (r_idle_conn r && negb (r_late_sent r)) || (r_inflight r && negb drains) in
   (if r_err_ctx r then [] else [1%N]) ++
@@ -380,6 +383,15 @@ Definition rcase_codes (r : rcase) : list N :=
   (if blocked && (r_elapsed r <? r_timeout r - r_tol r) then [8%N] else []) ++
   (if r_upstream_closed r || r_inflight r then [] else [9%N]).
 Definition rcase_prop_ok (r : rcase) : bool := match rcase_codes r with [] => true | _ => false end.
+
+(* ---------- a request first sent after shutdown began, inside an established session of a proxy
+   that intercepts CONNECT (MITM), or a CONNECT on an idle connection of such a proxy ---------- *)
+Record mcase := {
+  m_upstream_after : Z;   (* round trips / dials started after closing had been observed *)
+  m_got_response : bool;  (* the client received a response to the late request *)
+  m_eof : bool            (* the client saw its socket closed *)
+}.
+Definition mcase_prop_ok (m : mcase) : bool := (m_upstream_after m =? 0) && negb (m_got_response m) && m_eof m.
 
 (* the checker used on recorded runs: only observable labels, and accepted by the search *)
 Definition accepts_visible (tr : list label) : bool :=
